@@ -601,6 +601,7 @@ func (p *Proc) execSelect(st *State, x *ast.SelectStmt) flow {
 
 type loopSpec struct {
 	ord     int
+	lets    []*Clause
 	invs    []*Clause
 	dec     *Clause
 	assigns []*Clause
@@ -622,6 +623,8 @@ func (p *Proc) loopSpecFor(n ast.Node) loopSpec {
 				ls.dec = cl
 			case "loop.assigns":
 				ls.assigns = append(ls.assigns, cl)
+			case "loop.let":
+				ls.lets = append(ls.lets, cl)
 			}
 		}
 	}
@@ -639,6 +642,15 @@ func (p *Proc) specEc(st *State, pos token.Pos) *ectx {
 
 func (p *Proc) loopHead(st *State, n ast.Node, body *ast.BlockStmt, extraMod []*types.Var, ls loopSpec, pos token.Pos) (d0 *Term) {
 	name := fmt.Sprintf("%sloop%d", p.cur().prefix, ls.ord)
+	// 0. ghost lets: values at loop entry
+	for _, cl := range ls.lets {
+		ec := p.specEc(st, pos)
+		ec.where = cl.Where
+		v := p.eval(ec, cl.Expr)
+		c := p.freshConst("let_"+cl.Param, v.T.Sort)
+		st.assume(Eq(c, v.T))
+		p.lets[cl.Param] = Val{T: c, Typ: v.Typ}
+	}
 	// 1. invariants hold on entry
 	for i, cl := range ls.invs {
 		ec := p.specEc(st, pos)
